@@ -100,7 +100,11 @@ impl Cx {
       std::process::exit(3);
     }
     self.rep.inc("panics");
-    let sig = format!("{}-panic@{}", entry, p.file_only());
+    // Every DID-carrying entry point funnels into the dependency's parser; a panic located inside it is
+    // attributed to that single entry point so that one root cause does not fan out over ~20 serde paths.
+    let file = p.file_only();
+    let sig_entry = if file.starts_with("did_url_parser-") { "BaseDIDUrl::parse" } else { entry };
+    let sig = format!("{}-panic@{}", sig_entry, file);
     self.rep.violation(
       &sig,
       &format!("{} panicked: {} at {} on input {}", entry, p.msg, p.loc(), inp.short()),
